@@ -4,7 +4,7 @@ from common import VERIF
 
 READY = True
 
-STAGE = "3-partial: vm_refines_eval_partial proved for text / emit / set (incl. unpacking) / set-block / filter-block / if-elif-else / with / for-else with unpacking targets, loop filter, break and continue over expressions with constant folding, short-circuit and/or, if-expressions, filters, tests, attribute/item access, list/map literals, chained comparisons (every expression form except calls); stage 2 (model code generator incl. macros, call blocks, calls and the find_macro_closure analysis == real instruction stream on every generated program; model VM == exec == engine on macro-free programs; extended model VM with closures, prepare_args and the live loop object with its adjacent-item look-ahead == exec == engine on all programs); macros / call blocks / calls not yet proved"
+STAGE = "3-partial: vm_refines_eval_partial proved for text / emit / set (incl. unpacking) / set-block / filter-block / if-elif-else / with / for-else with unpacking targets, loop filter, break and continue over expressions with constant folding, short-circuit and/or, if-expressions, filters, tests, attribute/item access, list/map literals, chained comparisons (every expression form except calls), and vm_refines_eval_discard for the same fragment run with a discarding output (top level of a child template / imported module followed by the layout / importer; captures under discard still capture); stage 2 (model code generator incl. macros, call blocks, calls and the find_macro_closure analysis == real instruction stream on every generated program; model VM == exec == engine on macro-free programs; extended model VM with closures, prepare_args and the live loop object with its adjacent-item look-ahead == exec == engine on all programs); macros / call blocks / calls not yet proved"
 
 META = {
     "technique": "Lean 4: reference interpreter of the core fragment with kernel-checked scoping / loop-variable / for-else laws; model of the code generator (back-patched absolute jumps) and of the VM with a kernel-checked refinement theorem for a fragment; ties: typed random programs -> real parser (AST dumped and compared) -> (a) Template::render vs. the interpreter (oracle, delta-debugging shrinker), (b) model code generator vs. the real instruction stream instruction by instruction, (c) model VM vs. engine and vs. the interpreter; tables regenerated from source",
@@ -127,6 +127,8 @@ def classify(impl, model):
     """-> (verdict, detail); verdict in same | skip | broken | fail"""
     if impl.startswith("parse-"):
         return "broken", "real parser did not reproduce the generated AST: " + impl
+    if impl == "skip":
+        return "skip", "entry form not applicable"
     if impl == "bad-case" or model.startswith("bad-case"):
         return "broken", f"case not understood (impl {impl}, model {model})"
     if model == "err:OUT-OF-FRAGMENT":
@@ -213,17 +215,20 @@ def report_failure(r, runner, cid, ctx, prog, detail):
 def run(r):
     r.rule = ("typed random programs of the core fragment (depth <= 6, <= 40 nodes incl. ill-typed slots) x random contexts of "
               "ints/strings/bools/none/lists/pairs/maps; quick 3000, thorough 100000 programs + corpus; a case is non-trivial "
-              "when it is distinct and contains at least one control construct; every generated program is also run through one of 7 other "
+              "when it is distinct and contains at least one control construct; every generated program is also run through one of 13 other "
               "entry forms (top level of a child template of a layout that prints its assignments / calls its macros / renders an overridden block; "
-              "module for from-import and import-as; include; render_captured + render_block / call_macro; Expression API) against the "
+              "module for from-import and import-as; include; render_captured + render_block / call_macro; Expression API; template_from_str; render_captured_to an io::Write; loader-backed environment; custom delimiters; custom formatter; debug off) against the "
               "reference semantics 'run P discarding its output, then the tail in the same top-level scope'")
     r.assumptions = [
         "programs deeper than 6 / larger than 40 nodes behave compositionally like the sampled ones (proved for the reference interpreter's laws, sampled for the engine)",
-        "macro defaults do not refer to sibling parameters; no recursion; macro values are only called, never stored (generator restrictions, see final report)",
+        "macro defaults do not refer to sibling parameters (generator restriction); recursion is bounded by a literal counter; macro values are stored under other names and passed as arguments, but not put into lists/maps or printed",
+        "context values are ints (incl. the i64 limits), strings, safe strings, bools, none, lists, pairs and string-keyed maps: no floats, bytes, custom objects or one-shot iterators (outside the value model of the reference semantics)",
+        "entry forms: child template + layout, from-import, import-as, include, render_captured + render_block / call_macro, Expression API, template_from_str, render_captured_to, loader, custom delimiters, custom formatter, debug off; default undefined behaviour, no auto-escaping, default build (no preserve_order)",
         "results outside the fragment (list + list, list * int, non-string map keys, bool subscripts) are skipped, not judged",
     ]
     r.extra["stage"] = STAGE
-    r.regen_tables(needed=["C03_LOOP_ATTRS", "C03_LOOP_FLAG_WITH_LOOP_VAR", "C03_RESERVED_NAMES", "MAX_LOCALS", "VALUE_KIND_ORDER"])
+    r.regen_tables(needed=["C03_LOOP_ATTRS", "C03_LOOP_FLAG_WITH_LOOP_VAR", "C03_RESERVED_NAMES", "MAX_LOCALS", "VALUE_KIND_ORDER",
+                           "C03_MACRO_CALLER", "C03_CAPTURE_MODES", "C03_INSTRUCTIONS", "C03_TEST_NAMES", "FILTER_NAMES"])
     r.lean_prove("MJ.Props.C03", "MJ/Audit/C03.lean", extra_targets=["drive_c03"])
     exe = r.cargo_build("c03")
     if exe is None:
@@ -265,18 +270,27 @@ def run(r):
     skipped = 0
     nfail = 0
     ncode = nvm = 0
-    nfrag = 0
+    nfrag = nfragw = nbase = nwrap = 0
     nvmm = 0
     for cid, ctx, prog, impl, mres, src, stats, realcode, modelcode, vmres, frag, vmmres in cases:
+        is_wrap = prog.startswith("(wrap ")
         if frag == "frag3" and modelcode != "oof":
             # syntactically in the fragment and compiled by the model generator (constant folding
-            # stayed inside the value model): the hypotheses of vm_refines_eval_partial hold
-            nfrag += 1
-            r.hist["proved_fragment"]["in (vm_refines_eval_partial applies)"] += 1
+            # stayed inside the value model): the hypotheses of vm_refines_eval_partial (stand-alone
+            # programs, entry forms that keep the output) / vm_refines_eval_discard (child template,
+            # module, render_block / call_macro after the render) hold
+            if is_wrap:
+                nfragw += 1
+                r.hist["proved_fragment"]["entry form: in (vm_refines_eval_discard / _partial applies)"] += 1
+            else:
+                nfrag += 1
+                r.hist["proved_fragment"]["in (vm_refines_eval_partial applies)"] += 1
         else:
-            r.hist["proved_fragment"]["outside"] += 1
+            r.hist["proved_fragment"]["entry form: outside (macros, call blocks, calls)" if is_wrap else "outside (macros, call blocks, calls)"] += 1
+        nbase += 0 if is_wrap else 1
+        nwrap += 1 if is_wrap else 0
         # ---- stage 2 streams: model code generator vs real instruction stream, model VM vs engine / exec
-        if modelcode != "oof":
+        if modelcode != "oof" and impl != "skip":
             # (wrapper cases run several templates: there is no single real instruction stream)
             if realcode != "-":
                 ncode += 1
@@ -311,6 +325,13 @@ def run(r):
             r.hist["depth"][st["depth"]] += 1
             conds += int(st["conds"]); constconds += int(st["constconds"])
         r.hist["engine_result"][impl.split(":")[0] if impl.startswith("ok") else impl[:40]] += 1
+        # input distribution: entry form and the value kinds of the render context
+        r.hist["entry_form"][prog.split(" ")[1] if is_wrap else "render (stand-alone template)"] += 1
+        for tag, name in (("(ss ", "safe string"), ("(s ", "string"), ("(i ", "int"), ("(l", "list"), ("(m ", "map")):
+            if tag in ctx: r.hist["context_value_kinds"][name] += 1
+        if re.search(r"\(i -?\d{10,}\)", ctx): r.hist["context_value_kinds"]["int beyond 32 bits (up to the i64 limits)"] += 1
+        if " t)" in ctx or " f)" in ctx: r.hist["context_value_kinds"]["bool"] += 1
+        if " none)" in ctx: r.hist["context_value_kinds"]["none"] += 1
         verdict, detail = classify(impl, mres)
         r.hist["verdict"][verdict + (":" + detail if detail == "errkind" else "")] += 1
         if verdict == "same" and detail == "errkind" and impl != mres:
@@ -331,6 +352,9 @@ def run(r):
         if len(r.samples) < 8 and kinds and cid.startswith("g") and cid[1:].isdigit() and int(cid[1:]) % 400 == 7:
             r.sample({"source": src, "ctx": ctx, "engine": show(impl), "spec": show(mres)})
     r.extra["programs_in_proved_fragment"] = nfrag
+    r.extra["entry_form_cases_in_proved_fragment"] = nfragw
+    r.extra["in_theorem_percentage"] = {"stand-alone programs": round(100.0 * nfrag / max(nbase, 1), 1),
+                                        "entry-form cases": round(100.0 * nfragw / max(nwrap, 1), 1)}
     r.extra["codegen_streams_compared"] = ncode
     r.extra["vm_runs_compared"] = nvm
     r.extra["vmM_runs_compared"] = nvmm
